@@ -2,6 +2,8 @@
      eff <wnil> <inil> <optsnil> <w> <h> <hasalpha> <25 option fields>
      preset <p> <quality>
      default
+     sanitize <kmin> <kmax>      (animation.sanitizeKeyframeOptions)
+     loop <v>                    (animation.clampLoopCount)
    Option fields (declaration order of EncoderOptions): bools 0|1, ints decimal,
    float32 as nan | +inf | -inf | <decimal n> (value n * 2^-149), blobs as lengths.
    Output: "I <canonical result>".                                            *)
@@ -56,5 +58,9 @@ let () = iter_lines (fun line ->
     print_endline ("I " ^ str_res (encode_outcome (b wn) (b inl) oo (z w) (z h) (b ha)))
   | ["preset"; p; q] -> print_endline ("I " ^ str_opts (options_for_preset (z p) (fl_of q)))
   | ["default"] -> print_endline ("I " ^ str_opts default_options)
+  | ["sanitize"; a; b] ->
+    let (x, y) = OptsAnim.sanitize_keyframes (z a) (z b) in
+    print_endline (Printf.sprintf "I %s %s" (sz x) (sz y))
+  | ["loop"; v] -> print_endline ("I " ^ sz (OptsAnim.clamp_loop_count (z v)))
   | [] -> ()
   | _ -> print_endline "ERR bad-line")
